@@ -1214,7 +1214,9 @@ class Symex:
             return self.getattr(self.ev(n.value), n.attr, n)
         if isinstance(n, ast.Subscript):
             return self.subscript(n)
-        if isinstance(n, (ast.ListComp, ast.GeneratorExp, ast.SetComp)):
+        if isinstance(n, ast.GeneratorExp):
+            return self.genexp(n)
+        if isinstance(n, (ast.ListComp, ast.SetComp)):
             out = []
             self.comp(n.generators, 0, lambda: out.append(self.ev(n.elt)))
             return set(out) if isinstance(n, ast.SetComp) else out
@@ -1336,12 +1338,50 @@ class Symex:
         except TypeError:
             self.unsupported(n, f"subscript of {type(obj).__name__}")
 
-    def comp(self, gens, k, emit):
+    def genexp(self, n):
+        """A generator expression is lazy: only its outermost iterable is evaluated where the expression stands, the
+        conditions and the element when it is consumed.  It is evaluated here once (so every consumer sees a list) and
+        once more at its first consumption if a container or binding its body reads has changed in between."""
+        first = self.ev(n.generators[0].iter)
+        out = _GenList()
+        self.comp(n.generators, 0, lambda: out.append(self.ev(n.elt)), first=(first,))
+        targets = {x.id for g in n.generators for x in ast.walk(g.target) if isinstance(x, ast.Name)}
+        body = [n.elt] + [c for g in n.generators for c in g.ifs] + [g.iter for g in n.generators[1:]]
+        free = sorted({x.id for b in body for x in ast.walk(b) if isinstance(x, ast.Name)} - targets)
+        frames = list(self.frames)
+        out._lazy = (self, n, frames, self.module, first, free, self._gen_state(frames, free))
+        return out
+
+    def _gen_state(self, frames, names):
+        st = []
+        for nm in names:
+            for fr in reversed(frames):
+                if nm in fr:
+                    st.append((nm, _fingerprint(fr[nm])))
+                    break
+        return tuple(st)
+
+    def _gen_force(self, out):
+        _, n, frames, module, first, free, state = out._lazy
+        out._lazy = None
+        if self._gen_state(frames, free) == state:
+            return
+        saved = (self.frames, self.module)
+        self.frames, self.module = list(frames), module
+        try:
+            fresh = []
+            self.comp(n.generators, 0, lambda: fresh.append(self.ev(n.elt)), first=(first,))
+        finally:
+            self.frames, self.module = saved
+        list.clear(out)
+        list.extend(out, fresh)
+
+    def comp(self, gens, k, emit, first=None):
         if k == len(gens):
             emit()
             return
         g = gens[k]
-        it = self.ev(g.iter)
+        it = first[0] if (k == 0 and first is not None) else self.ev(g.iter)
         self.frames.append({}) if k == 0 else None
         try:
             for x in list(self.iterate(it, g.iter)):
@@ -2437,6 +2477,78 @@ def _eq(a, b):
         return a is b or (type(a) is type(b) and a == b) or (_plain(a) and _plain(b) and a == b)
     except Exception:
         return False
+
+
+class _GenList(list):
+    """Value of a generator expression: the elements, re-evaluated at the first consumption if the state read by the
+    body changed after the expression was created (see Symex.genexp)."""
+    _lazy = None
+
+    def _force(self):
+        lz = self._lazy
+        if lz is not None:
+            lz[0]._gen_force(self)
+
+    def __iter__(self):
+        self._force()
+        return list.__iter__(self)
+
+    def __len__(self):
+        self._force()
+        return list.__len__(self)
+
+    def __getitem__(self, k):
+        self._force()
+        return list.__getitem__(self, k)
+
+    def __contains__(self, x):
+        self._force()
+        return list.__contains__(self, x)
+
+    def __eq__(self, o):
+        self._force()
+        return list.__eq__(self, o)
+
+    __hash__ = None
+
+    def __repr__(self):
+        self._force()
+        return list.__repr__(self)
+
+    def __deepcopy__(self, memo):
+        import copy
+        return [copy.deepcopy(x, memo) for x in self]
+
+    def __reduce__(self):
+        return (list, (list(self),))
+
+
+def _fingerprint(v, depth=4):
+    """Structural snapshot of a value: changes iff a container reachable from it was mutated or the value replaced."""
+    if isinstance(v, _GenList):
+        return ("gen", id(v))
+    if depth == 0 or isinstance(v, (Func, ClassRef, ModRef, Ext)):
+        return ("id", id(v))
+    if isinstance(v, list):
+        return ("list", id(v), tuple(_fingerprint(x, depth - 1) for x in v))
+    if isinstance(v, tuple):
+        return ("tuple", tuple(_fingerprint(x, depth - 1) for x in v))
+    if isinstance(v, (set, frozenset)):
+        try:
+            return ("set", id(v), frozenset(_fingerprint(x, depth - 1) for x in v))
+        except TypeError:
+            return ("set", id(v), len(v))
+    if isinstance(v, dict):
+        try:
+            return ("dict", id(v), tuple((_fingerprint(k, depth - 1), _fingerprint(x, depth - 1)) for k, x in v.items()))
+        except Exception:
+            return ("dict", id(v), len(v))
+    if isinstance(v, Obj):
+        return ("obj", id(v), tuple((k, _fingerprint(x, depth - 1)) for k, x in sorted(v.attrs.items(), key=lambda kv: kv[0])
+                                     if not callable(x)))
+    if isinstance(v, T) or _plain(v):
+        return v
+    return ("id", id(v))
 
 
 def _freeze(v):
